@@ -66,8 +66,8 @@ class C17(Prop):
                  [('a', 'b', 'c'), ('a', 'd'), ('b', 'd'), ('c', 'd')], ac.all_triples(4)]
         state = dict(k=0)
 
-        def mk(cl, damping, scale=None, shape=None, minimal=None):
-            n = len(set(sum(cl, ())))
+        def mk(cl, damping, scale=None, shape=None, minimal=None, n_attrs=None):
+            n = n_attrs or len(set(sum(cl, ())))
             state['k'] += 1
             k = state['k']
             sc = float(scale if scale is not None else rng.choice([1.0, 2.0]))
@@ -113,7 +113,7 @@ class C17(Prop):
                 d = float(rng.choice([0.1, 0.5, 0.9]))
                 if d < 0.5 and len([c for c in ac.maximal(cl) if len(c) == 3]) >= 4:
                     continue
-                mid.append(mk(cl, d))
+                mid.append(mk(cl, d, n_attrs=n))
         return _interleave(slow, mid, fast)
 
     def nontrivial(self, case):
